@@ -110,7 +110,7 @@ def check(tier, seed):
     # 1. exhaustive enumeration + design check
     amt, npush, nder = (1, 2, 1) if quick else (2, 2, 1)
     r = core.tlc_mc("MC_Assets", MC_CFG.format(amt=amt, npush=npush, nder=nder, eq="VEq", emit="TRUE"),
-                    "c15_mc", workers=4 if quick else 10, timeout=1500)
+                    "c15_mc", workers=4 if quick else 10, timeout=1500, coverage=True)
     rep.add_tlc(r)
     cases = [c["ops"] for c in r.cases]
     rep.extra["mc_cases"] = len(cases)
